@@ -20,6 +20,9 @@ std::unique_ptr<NodeResult> ForLoopNode::evaluate(PSC::Context &ctx) {
         ctx.addVariable(iterator);
     }
 
+    if (iterator->isConstant)
+        throw PSC::ConstAssignError(token, ctx, iterator->name);
+
     if (iterator->type != PSC::DataType::INTEGER)
         throw PSC::RuntimeError(token, ctx, "Iterator variable must be of type INTEGER");
 
